@@ -51,8 +51,8 @@ type Run struct {
 	lastPut map[any]string // op tag of the last Put of an object
 	held    map[any]int    // how many current holders an object has (served twice => 2)
 
-	Lean  bool // -race build of C08: no log, no decisions, array-based pool model
-	lean  leanState
+	Lean bool // -race build of C08: no log, no decisions, array-based pool model
+	lean leanState
 
 	Sched     *Sched
 	LastSched *Sched
